@@ -270,15 +270,28 @@ def rule_r7(chk, db, v):
     name = db.root_of(v.body).name
     sites = [(b, bi, t) for b, bi, t in db.callers_of(name) if b.crate == "s3s" and "::tests::" not in b.name]
     chk.floor("R7", len(sites), 1, "call sites of the form verifier")
-    for b, bi, t in sites:
-        ok = False
-        for f in guards.dominating_facts(b, bi):
+    def keep_verifier(db_, caller, term, callee):
+        if callee is not None and db_.root_of(callee).name == name:
+            return False
+        return inline.default_policy(db_, caller, term, callee)
+    keep_verifier.__name__ = "c10_keep_form_verifier"
+
+    def under_post(x, xbi):
+        for f in guards.dominating_facts(x, xbi):
             if f[0] != "call" or not (f[1].endswith("PartialEq::eq") and f[2] is True or f[1].endswith("PartialEq::ne") and f[2] is False):
                 continue
-            ct = b.blocks[f[3]]["term"]
-            cs = [flow.const_of(b, a) for a in ct["args"]]
+            ct = x.blocks[f[3]]["term"]
+            cs = [flow.const_of(x, a) for a in ct["args"]]
             if any(c is not None and c.get("c") == "item" and c.get("def") == "http::method::Method::POST" for c in cs):
-                ok = True
+                return True
+        return False
+    for b, bi, t in sites:
+        ok = under_post(b, bi)
+        if not ok:
+            # the decision may be stored (`match self.v4_source()? { V4Source::PostForm => .. }`): studied with the classifier inlined
+            ib = inline.inlined(db, b, keep_verifier)
+            inl = [xbi for xbi, xt in ib.calls() if callee_def(xt) == name]
+            ok = bool(inl) and all(under_post(ib, xbi) for xbi in inl)
         chk.verdict(ok, "R7", "form-verifier-only-for-POST@%s" % short(db.root_of(b).name), b.loc(bi),
                     "the POST-form verifier is reached without the request method having been compared with POST: a PUT whose Content-Type is "
                     "multipart/form-data is treated as a browser upload instead of reaching its own operation")
